@@ -316,7 +316,7 @@ def gen_case(rng, tier, kind=None, dtype=None):
         vals = (vals * (reps // L + 1))[:reps]
         L = len(vals)
     k = rng.randint(1, 5)
-    hi = L if L < 100 else rng.choice([100, 120, L])
+    hi = L if L < 100 else rng.choice([100, min(120, L), L])
     st = [rng.randint(0, hi - 1) for _ in range(k)]
     en = [rng.randint(s_ + 1, hi) for s_ in st]
     fits = [d for d in gen.NP_INTS if max(en) <= np.iinfo(d).max]
